@@ -87,8 +87,17 @@ fn hover(req: &Value) -> Value {
     json!({"hover": out})
 }
 
+/// single file ({"text":..}) or a workspace ({"files":..,"roots":..,"file":i})
+fn host_for(req: &Value) -> (AnalysisHost, FileId) {
+    if req["files"].is_array() {
+        (build(req), FileId(req["file"].as_u64().unwrap() as u32))
+    } else {
+        AnalysisHost::new_single_file(req["text"].as_str().unwrap())
+    }
+}
+
 fn goto(req: &Value) -> Value {
-    let (host, file) = AnalysisHost::new_single_file(req["text"].as_str().unwrap());
+    let (host, file) = host_for(req);
     let a = host.snapshot();
     let mut out = Vec::new();
     for o in req["offsets"].as_array().unwrap() {
@@ -105,7 +114,7 @@ fn goto(req: &Value) -> Value {
 }
 
 fn complete(req: &Value) -> Value {
-    let (host, file) = AnalysisHost::new_single_file(req["text"].as_str().unwrap());
+    let (host, file) = host_for(req);
     let a = host.snapshot();
     let mut out = Vec::new();
     for o in req["offsets"].as_array().unwrap() {
